@@ -9,7 +9,8 @@
    ChainMode: publishes are restricted to  n_i -> immutable | /ipns/n_{i+1}[/rest] | /ipns/n_1[/rest]
               so that long chains and cycles arise often (chains up to |Names| hops).          *)
 EXTENDS Namesys
-CONSTANTS D, E, ChainMode, Prefix
+CONSTANTS D, E, ChainMode, Prefix,
+          NB, MinB, PreC, PostC, SimMode   \* concurrent family (CSpec / CSpecSim), see below
 VARIABLE hist
 gvars == <<vars, hist>>
 
@@ -42,6 +43,7 @@ Flush == /\ ~Busy /\ Len(hist) = E
          /\ hist' = <<>> /\ routing' = [n \in Names |-> NoRec] /\ dsrec' = [n \in Names |-> NoRec]
          /\ cache' = <<>> /\ now' = 0 /\ csize' \in CacheSizes /\ maxttl' \in MaxTTLs
          /\ rs' = Idle /\ last' = [op |-> "Init"]
+         /\ pubs' = [p \in Procs |-> NoCall] /\ lock' = [n \in Names |-> "none"] /\ loose' = {}
 \* -simulate: TLC picks uniformly among successor STATES, which would drown Tick/Restart in the
 \* thousands of Publish/Resolve parameterisations; so the call kind and its arguments are drawn
 \* explicitly (RandomElement), explicit sequence numbers around the current one.
@@ -71,4 +73,55 @@ GOpSim ==
      ELSE Restart /\ hist' = Append(hist, [op |-> "Restart"])
 GNextSim == IF ~Busy /\ Len(hist) = E THEN Flush ELSE (GInternal \/ GOpSim)
 GSpecSim == GInit /\ [][GNextSim]_gvars
+
+(* ---- concurrent family --------------------------------------------------------------------------
+   A behaviour = up to PreC sequential publishes, then MinB..NB overlapping publish calls, then PostC
+   sequential calls (publish / resolve).  The harness can start a call (PBegin) and hold it at two gates:
+   before the datastore Put (released by PWrite) and before the value-store Put (released by PRoute);
+   everything else a call does (enter the critical section and read, fail on a refused sequence
+   number, return) happens by itself as soon as it can -- here: eagerly (CInternal).  So the ops are
+   the CONTROL sequence; which interleaving the real code then shows is logged and judged by
+   TraceNamesys.  CSpec: every control sequence (BFS);  CSpecSim: random ones (-simulate).          *)
+ProcOrder == <<"p1", "p2", "p3">>
+BegunIdx == {i \in 1..Len(hist) : hist[i].op = "PBegin"}
+NBegun == Cardinality(BegunIdx)
+NPost == Cardinality({i \in 1..Len(hist) : hist[i].op \in {"Publish", "Resolve"} /\ \E j \in BegunIdx : j < i})
+ImmVals == {v \in Vals : v.ns = "ipfs"}
+Sel(S) == IF SimMode THEN {RandomElement(S)} ELSE S
+SqSel == IF ~SimMode THEN SeqOpts
+         ELSE IF SeqExplicit # {} /\ RandomElement(1..3) = 1 THEN {RandomElement(SeqExplicit)} ELSE {-1}
+CBusy == \E p \in Procs : \/ pubs[p].st = "begun" /\ lock[pubs[p].n] = "none"
+                          \/ pubs[p].st = "read" /\ SeqRejected(pubs[p].prev, pubs[p].sq)
+                          \/ pubs[p].st \in {"routed", "rejected"}
+CInternal == /\ CBusy /\ UNCHANGED hist
+             /\ \E p \in Procs : PRead(p) \/ PReject(p) \/ PEnd(p)
+Ctl == (IF NBegun < NB /\ NPost = 0 THEN {[k |-> "B", p |-> ProcOrder[NBegun + 1]]} ELSE {})
+       \cup {[k |-> "W", p |-> q] : q \in {r \in Procs : pubs[r].st = "read"}}
+       \cup {[k |-> "R", p |-> q] : q \in {r \in Procs : pubs[r].st = "written"}}
+       \cup (IF AllIdle /\ NBegun >= MinB /\ NPost < PostC THEN {[k |-> "S", p |-> ""]} ELSE {})
+       \cup (IF NBegun = 0 /\ Len(hist) < PreC THEN {[k |-> "P", p |-> ""]} ELSE {})
+CSeqPublish == \E n \in Sel(Names), t \in Sel(TTLs), sq \in SqSel : \E v \in Sel(ImmVals) :
+                 /\ Publish(n, v, t, sq)
+                 /\ hist' = Append(hist, [op |-> "Publish", n |-> n, v |-> v, ttl |-> t, sq |-> sq])
+COp == /\ ~CBusy /\ ~Busy /\ Ctl # {}
+       /\ \E c \in Sel(Ctl) :
+            CASE c.k = "B" -> \E n \in Sel(Names), t \in Sel(TTLs), sq \in SqSel : \E v \in Sel(ImmVals) :
+                                /\ PBegin(c.p, n, v, t, sq)
+                                /\ hist' = Append(hist, [op |-> "PBegin", p |-> c.p, n |-> n, v |-> v, ttl |-> t, sq |-> sq])
+              [] c.k = "W" -> PWrite(c.p) /\ hist' = Append(hist, [op |-> "PWrite", p |-> c.p])
+              [] c.k = "R" -> /\ \E acc \in BOOLEAN : PRoute(c.p, acc)
+                              /\ hist' = Append(hist, [op |-> "PRoute", p |-> c.p])
+              [] c.k = "P" -> CSeqPublish
+              [] c.k = "S" -> \/ CSeqPublish
+                              \/ \E q \in Sel(Req) : RStart(q) /\ hist' = Append(hist, [op |-> "Resolve", q |-> q])
+CDone == ~CBusy /\ ~Busy /\ AllIdle /\ NBegun >= MinB /\ NPost = PostC
+CSpec == GInit /\ [][GInternal \/ CInternal \/ COp]_gvars
+EmitC == ~CDone \/ PrintT(<<"BEHAVIOUR", ToJson(Beh)>>)
+FlushC == /\ PrintT(<<"BEHAVIOUR", ToJson(Beh)>>)
+          /\ hist' = <<>> /\ routing' = [n \in Names |-> NoRec] /\ dsrec' = [n \in Names |-> NoRec]
+          /\ cache' = <<>> /\ now' = 0 /\ csize' \in CacheSizes /\ maxttl' \in MaxTTLs
+          /\ rs' = Idle /\ last' = [op |-> "Init"]
+          /\ pubs' = [p \in Procs |-> NoCall] /\ lock' = [n \in Names |-> "none"] /\ loose' = {}
+CNextSim == IF CDone /\ (NBegun = NB \/ PostC > 0) THEN FlushC ELSE (GInternal \/ CInternal \/ COp)
+CSpecSim == GInit /\ [][CNextSim]_gvars
 =============================================================================
